@@ -828,9 +828,10 @@ UNIVERSES = {
                 "b": st.sampled_from([1, 2, "s t"]),
                 "c": st.sampled_from(["x y", "job", "é", "中 1"]),
                 "d e": st.sampled_from([0.5, 1e22, -3]),
+                "ab": st.integers(0, 1),  # a key whose name merely starts like another key's
             }
         ),
-        "keys": {"a": st.integers(0, 2), "b": st.sampled_from([1, 2, "s t"]), "c": st.sampled_from(["x y", "job", "é"])},
+        "keys": {"a": st.integers(0, 2), "b": st.sampled_from([1, 2, "s t"]), "c": st.sampled_from(["x y", "job", "é"]), "ab": st.integers(0, 1)},
         "paths": ["{a}", "a/{a}/{{auto}}", "{a}/{c}", "{b}", "c/{c}/{{auto}}", "{a}/{b}/{c}"],
     },
     "nested": {
@@ -850,8 +851,8 @@ UNIVERSES = {
             st.fixed_dictionaries({"a": st.integers(0, 1), "n": _opt({"y": st.sampled_from(["p q", "r"])})}),
             st.fixed_dictionaries({"a": st.integers(0, 1)}, optional={"n": st.just(5)}),
         ),
-        "keys": {"a": st.integers(0, 2), "m": st.integers(0, 1)},
-        "paths": ["{n.x}", "x/{n.x}/{{auto}}", "a/{a}/{{auto}}", "{a}/{n.y}", "n.z.w/{n.z.w}/{{auto}}"],
+        "keys": {"a": st.integers(0, 2), "m": st.integers(0, 1), "disp": st.fixed_dictionaries({"x": st.integers(0, 2)}), "nu": st.integers(0, 1)},
+        "paths": ["{n.x}", "x/{n.x}/{{auto}}", "a/{a}/{{auto}}", "{a}/{n.y}", "n.z.w/{n.z.w}/{{auto}}", "n/{n}/{{auto}}"],
     },
     "collide": {
         "sp": st.fixed_dictionaries(
@@ -969,6 +970,9 @@ CONSTRUCTED = [
     {"universe": "collide", "fresh": False, "ops": _adds([{"a": 2}, {"a": 3}]) + [_v()] + _adds([{"a": "2"}]) + [_v()]},
     # empty selection on a non-empty project
     {"universe": "homog", "fresh": False, "ops": _adds([{"a": 1}, {"a": 2}]) + [_v(), _v([]), _v()]},
+    # keys whose names end like / start like something else: 'disp.x' (ends in "sp."), 'ab' next to the format field 'a'
+    {"universe": "nested", "fresh": False, "ops": _adds([{"a": 0, "disp": {"x": 0}}, {"a": 0, "disp": {"x": 1}}, {"a": 1, "disp": {"x": 1}, "sp": {"n": 2}, "n": 5}]) + [_v(), AGAIN, _v(None, "a/{a}/{{auto}}"), _v()]},
+    {"universe": "hetero", "fresh": False, "ops": _adds([{"a": 0, "ab": 0}, {"a": 0, "ab": 1}, {"a": 1, "ab": 0}, {"a": 1, "ab": 1, "b": 2}]) + [_v(None, "a/{a}/{{auto}}"), AGAIN, _v(), _v([0, 1], "a/{a}/{{auto}}")]},
     # a directory spelled 'job'
     {"universe": "hetero", "fresh": False, "ops": _adds([{"a": 0, "c": "job"}, {"a": 1, "c": "é"}]) + [_v(None, "{a}/{c}"), _v(None, "{a}"), _v()]},
     {"universe": "hetero", "fresh": False, "ops": _adds([{"a": 0, "c": "job"}, {"a": 1, "c": "é"}]) + [_v(None, "{a}"), _v(None, "{a}/{c}"), AGAIN, _v(), _v(None, "{c}/{a}"), _v()]},
